@@ -554,8 +554,12 @@ func ruleHNSWEdgeBudget(r *Run, rule string) {
 	}
 	var sites []site
 	for _, call := range callsIn(ins, func(cc *ssa.CallCommon) bool { return staticCallee(cc) == sel }) {
-		args := call.Common().Args
-		sites = append(sites, site{call, args[len(args)-1], "selection"})
+		// the budget is the selection's integer argument (wherever it stands)
+		for _, a := range call.Common().Args {
+			if bt, ok := a.Type().Underlying().(*types.Basic); ok && bt.Kind() == types.Int {
+				sites = append(sites, site{call, a, "selection"})
+			}
+		}
 	}
 	if prune != nil {
 		pM := pruneBoundParam(prune)
